@@ -28,6 +28,8 @@ MC_CFG = """CONSTANTS
   UploadSizes = {upsizes}
   MaxBurst = {maxburst}
   DynChoices = {dyns}
+  HalfOps = {halfops}
+  MaxHalf = {maxhalf}
   Paths = {paths}
 INIT Init
 NEXT Next
@@ -36,6 +38,7 @@ INVARIANT InvStreamPrefix
 INVARIANT InvNothingPastMutation
 INVARIANT InvNoSpuriousError
 INVARIANT InvInSync
+INVARIANT InvReadsSurvive
 INVARIANT Emit
 PROPERTY PropSticky
 PROPERTY PropKsPure
@@ -79,7 +82,7 @@ def mc(ctx, name, **kw):
              paths="TRUE" if kw.get("paths") else "FALSE",
              bursts=tla_set(kw.get("bursts", [])), uprounds=tla_set(kw.get("uprounds", [])),
              upsizes=tla_set(kw.get("upsizes", [])), maxburst=kw.get("maxburst", 0),
-             dyns=tla_set(kw.get("dyns", [False])))
+             dyns=tla_set(kw.get("dyns", [False])), halfops=tla_set(kw.get("halfops", [])), maxhalf=kw.get("maxhalf", 0))
     with open("%s/%s.cfg" % (ctx.scratch, name), "w") as f:
         f.write(MC_CFG.format(**d))
     res = ctx.tlc("Record_MC", cfg=name, workers=kw.get("workers", 8), timeout=kw.get("timeout", 1500),
@@ -117,6 +120,10 @@ def concretise(ops, rng, mutctr):
                      mask=(1 if where == "len" else rng.choice([1, 2, 4, 8, 16, 32, 64, 128, 255, rng.randrange(1, 256)])))
         if o["op"] == "KUB":      # k key updates in a row
             out += [{"op": "KU", "x": o["x"], "req": o["req"]} for _ in range(o["k"])]
+            continue
+        if o["op"] == "UPS":      # k x (write; a KeyUpdate of the same side)
+            for _ in range(o["k"]):
+                out += [{"op": "W", "x": o["x"], "n": o["n"]}, {"op": "KU", "x": o["x"], "req": o["req"]}]
             continue
         if o["op"] == "UPL":      # k x (write; the receiver sends a KeyUpdate)
             py = "s" if o["x"] == "c" else "c"
